@@ -1,7 +1,7 @@
 (* C09 - transposes (T1 in place, T2 out of place), diag / diag1 / diag2.
    Arbitrary element type, no algebraic law needed. *)
-From Coq Require Import List Arith Bool Lia.
-From LibaV Require Import C09.LinalgDefs C09.LinalgLemmas.
+From Coq Require Import List Arith Bool Lia NArith.
+From LibaV Require Import C09.LinalgDefs C09.LinalgSpec C09.LinalgLemmas.
 Import ListNotations.
 
 Ltac cmpb :=
@@ -16,6 +16,13 @@ Ltac cmpb :=
            assert (i = j) by lia; subst; reflexivity
        end);
   try (subst; reflexivity).
+
+(* discharge [U32 x] from a hypothesis [U32 y] with x <= y *)
+Ltac u32 :=
+  match goal with
+  | H : U32 ?b |- U32 ?a => apply (U32_mono a b); [lia|exact H]
+  | H : U32 ?b |- (N.of_nat ?a <= 4294967296)%N => apply U32_le; apply (U32_mono a b); [lia|exact H]
+  end.
 
 Lemma amin_min m n : amin m n = Nat.min m n.
 Proof. unfold amin. destruct (Nat.ltb_spec m n); lia. Qed.
@@ -33,11 +40,12 @@ Section TP.
     if (i <? c) || ((i =? c) && (j <? k)) then get A (j * n + i) else get T0 (i * m + j).
 
   Lemma T2_col_ok m n A T0 c b :
+    U32 m -> U32 n ->
     c < n -> length A = m * n -> Mat n m (G2 m n A T0 c 0) (cells b) ->
     exists b', T2_col T m n A (c, b) = Ok (S c, b') /\ nwr b' = nwr b + m /\
                Mat n m (G2 m n A T0 (S c) 0) (cells b').
   Proof.
-    intros Hc HA HM. unfold T2_col.
+    intros Um Un Hc HA HM. unfold T2_col.
     destruct (while_ghost
                 (fun k (s : nat * buf T) =>
                    let '(r, b1) := s in
@@ -46,6 +54,8 @@ Section TP.
       with (fuel := m) (k := 0) (s := (0, b)) as (s' & Hw & Hi).
     - intros k [r b1] (-> & Hn & HM1) Hk. split; [apply Nat.ltb_lt; lia|].
       unfold T2_inner.
+      rewrite (sz_mul_id n k), (sz_mul_id m c) by u32.
+      rewrite (sz_add_id (n * k) c m n), (sz_add_id (m * c) k n m) by (try nia; assumption).
       replace (n * k + c) with (k * n + c) by lia.
       rewrite (load_ok T zero) by (rewrite HA; apply idx_lt; lia). cbn [bind].
       destruct (Mat_store T zero n m _ b1 c k (m * c + k) (get A (k * n + c)) HM1)
@@ -63,11 +73,12 @@ Section TP.
   Qed.
 
   Theorem T2_ok m n A b0 :
+    U32 m -> U32 n ->
     length A = m * n -> length (cells b0) = n * m ->
     exists b, T2 T m n A b0 = Ok b /\ nwr b = nwr b0 + n * m /\ length (cells b) = n * m /\
       forall r c, r < m -> c < n -> get (cells b) (c * m + r) = get A (r * n + c).
   Proof.
-    intros HA Hlen. unfold T2.
+    intros Um Un HA Hlen. unfold T2.
     destruct (while_ghost
                 (fun k (s : nat * buf T) =>
                    let '(c, b1) := s in
@@ -75,7 +86,7 @@ Section TP.
                 n (fun '(c, _) => c <? n) (T2_col T m n A))
       with (fuel := n) (k := 0) (s := (0, b0)) as (s' & Hw & Hi).
     - intros k [c b1] (-> & Hn & HM1) Hk. split; [apply Nat.ltb_lt; lia|].
-      destruct (T2_col_ok m n A (cells b0) k b1 Hk HA HM1) as (b2 & Hr & Hn2 & HM2).
+      destruct (T2_col_ok m n A (cells b0) k b1 Um Un Hk HA HM1) as (b2 & Hr & Hn2 & HM2).
       rewrite Hr. eexists. split; [reflexivity|]. split; [reflexivity|]. split; [lia|exact HM2].
     - intros [c b1] (-> & _). apply Nat.ltb_ge; lia.
     - split; [reflexivity|]. split; [lia|].
@@ -96,11 +107,12 @@ Section TP.
     then get A0 (j * n + i) else get A0 (i * n + j).
 
   Lemma T1_row_ok n A0 r b :
-    r < n -> Mat n n (G1 n A0 r 0) (cells b) ->
+    U32 n -> r < n -> Mat n n (G1 n A0 r 0) (cells b) ->
     exists b', T1_row T n (r, b) = Ok (S r, b') /\ nwr b' = nwr b + 2 * (n - 1 - r) /\
                Mat n n (G1 n A0 (S r) 0) (cells b').
   Proof.
-    intros Hr HM. unfold T1_row.
+    intros Un Hr HM. unfold T1_row.
+    rewrite (u32_inc_id r n Hr Un).
     destruct (while_ghost
                 (fun k (s : nat * buf T) =>
                    let '(c, b1) := s in
@@ -109,6 +121,7 @@ Section TP.
       with (fuel := n) (k := 0) (s := (r + 1, b)) as (s' & Hw & Hi).
     - intros k [c b1] (-> & Hn & HM1) Hk. split; [apply Nat.ltb_lt; lia|].
       unfold T1_inner.
+      rewrite (sz_mul_id n r), (sz_mul_id n (r + 1 + k)) by u32.
       rewrite (Mat_load T zero n n _ _ (r + 1 + k) r _ HM1) by lia. cbn [bind].
       rewrite (Mat_load T zero n n _ _ r (r + 1 + k) _ HM1) by lia. cbn [bind].
       assert (E1 : G1 n A0 r k (r + 1 + k) r = get A0 ((r + 1 + k) * n + r)) by (unfold G1; cmpb).
@@ -141,11 +154,11 @@ Section TP.
   Proof. induction r as [|r IH]; intros H; simpl; [lia|]. specialize (IH ltac:(lia)). nia. Qed.
 
   Theorem T1_ok n b0 :
-    length (cells b0) = n * n ->
+    U32 n -> length (cells b0) = n * n ->
     exists b, T1 T n b0 = Ok b /\ nwr b + n = nwr b0 + n * n /\ length (cells b) = n * n /\
       forall r c, r < n -> c < n -> get (cells b) (r * n + c) = get (cells b0) (c * n + r).
   Proof.
-    intros Hlen. unfold T1.
+    intros Un Hlen. unfold T1.
     destruct (while_ghost
                 (fun k (s : nat * buf T) =>
                    let '(r, b1) := s in
@@ -153,7 +166,7 @@ Section TP.
                 n (fun '(r, _) => r <? n) (T1_row T n))
       with (fuel := n) (k := 0) (s := (0, b0)) as (s' & Hw & Hi).
     - intros k [r b1] (-> & Hn & HM1) Hk. split; [apply Nat.ltb_lt; lia|].
-      destruct (T1_row_ok n (cells b0) k b1 Hk HM1) as (b2 & Hr & Hn2 & HM2).
+      destruct (T1_row_ok n (cells b0) k b1 Un Hk HM1) as (b2 & Hr & Hn2 & HM2).
       rewrite Hr. eexists. split; [reflexivity|]. split; [reflexivity|].
       split; [simpl; lia|exact HM2].
     - intros [r b1] (-> & _). apply Nat.ltb_ge; lia.
@@ -170,24 +183,24 @@ Section TP.
 
   (* -------------------------------------------------- involutions *)
   Theorem T2_involutive m n A b0 b1 :
-    length A = m * n -> length (cells b0) = n * m -> length (cells b1) = m * n ->
+    U32 m -> U32 n -> length A = m * n -> length (cells b0) = n * m -> length (cells b1) = m * n ->
     exists t u, T2 T m n A b0 = Ok t /\ T2 T n m (cells t) b1 = Ok u /\ cells u = A.
   Proof.
-    intros HA H0 H1.
-    destruct (T2_ok m n A b0 HA H0) as (t & Ht & _ & Hlt & Hvt).
-    destruct (T2_ok n m (cells t) b1 Hlt H1) as (u & Hu & _ & Hlu & Hvu).
+    intros Um Un HA H0 H1.
+    destruct (T2_ok m n A b0 Um Un HA H0) as (t & Ht & _ & Hlt & Hvt).
+    destruct (T2_ok n m (cells t) b1 Un Um Hlt H1) as (u & Hu & _ & Hlu & Hvu).
     exists t, u. split; [exact Ht|]. split; [exact Hu|].
     apply (mat_ext T zero m n); [exact Hlu|exact HA|].
     intros r c Hr Hc. rewrite Hvu by assumption. apply Hvt; assumption.
   Qed.
 
   Theorem T1_involutive n b0 :
-    length (cells b0) = n * n ->
+    U32 n -> length (cells b0) = n * n ->
     exists b1 b2, T1 T n b0 = Ok b1 /\ T1 T n b1 = Ok b2 /\ cells b2 = cells b0.
   Proof.
-    intros H0.
-    destruct (T1_ok n b0 H0) as (b1 & H1 & _ & Hl1 & Hv1).
-    destruct (T1_ok n b1 Hl1) as (b2 & H2 & _ & Hl2 & Hv2).
+    intros Un H0.
+    destruct (T1_ok n b0 Un H0) as (b1 & H1 & _ & Hl1 & Hv1).
+    destruct (T1_ok n b1 Un Hl1) as (b2 & H2 & _ & Hl2 & Hv2).
     exists b1, b2. split; [exact H1|]. split; [exact H2|].
     apply (mat_ext T zero n n); [exact Hl2|exact H0|].
     intros r c Hr Hc. rewrite Hv2 by assumption. apply Hv1; assumption.
@@ -195,12 +208,12 @@ Section TP.
 
   (* on square matrices the in-place and the out-of-place transpose agree *)
   Theorem T1_T2_agree n A w b0 :
-    length A = n * n -> length (cells b0) = n * n ->
+    U32 n -> length A = n * n -> length (cells b0) = n * n ->
     exists b1 b2, T1 T n (mkbuf A w) = Ok b1 /\ T2 T n n A b0 = Ok b2 /\ cells b1 = cells b2.
   Proof.
-    intros HA H0.
-    destruct (T1_ok n (mkbuf A w) HA) as (b1 & H1 & _ & Hl1 & Hv1).
-    destruct (T2_ok n n A b0 HA H0) as (b2 & H2 & _ & Hl2 & Hv2).
+    intros Un HA H0.
+    destruct (T1_ok n (mkbuf A w) Un HA) as (b1 & H1 & _ & Hl1 & Hv1).
+    destruct (T2_ok n n A b0 Un Un HA H0) as (b2 & H2 & _ & Hl2 & Hv2).
     exists b1, b2. split; [exact H1|]. split; [exact H2|].
     apply (mat_ext T zero n n); [exact Hl1|exact Hl2|].
     intros r c Hr Hc. rewrite Hv1, Hv2 by assumption. reflexivity.
@@ -208,12 +221,13 @@ Section TP.
 
   (* -------------------------------------------------- diag1, diag2 *)
   Lemma diag_get_loop n m A M b0 :
-    length A = m * n -> M <= m -> M <= n -> length (cells b0) = M ->
+    U32 n -> length A = m * n -> M <= m -> M <= n -> length (cells b0) = M ->
     exists b, while M (fun '(i, _) => i <? M) (diag_get T n A) (0, b0) = Ok (M, b) /\
               nwr b = nwr b0 + M /\ length (cells b) = M /\
               forall i, i < M -> get (cells b) i = get A (i * n + i).
   Proof.
-    intros HA HMm HMn Hlen.
+    intros Un HA HMm HMn Hlen.
+    destruct (sz_succ_id n Un) as [EN HN].
     destruct (while_ghost
                 (fun k (s : nat * buf T) =>
                    let '(i, b1) := s in
@@ -221,7 +235,8 @@ Section TP.
                 M (fun '(i, _) => i <? M) (diag_get T n A))
       with (fuel := M) (k := 0) (s := (0, b0)) as (s' & Hw & Hi).
     - intros k [i b1] (-> & I1) Hk. split; [apply Nat.ltb_lt; lia|].
-      unfold diag_get. replace ((n + 1) * k) with (k * n + k) by lia.
+      unfold diag_get. rewrite EN, (sz_mul_id (n + 1) k HN) by u32.
+      replace ((n + 1) * k) with (k * n + k) by lia.
       rewrite (load_ok T zero) by (rewrite HA; apply idx_lt; lia). cbn [bind].
       destruct (store_seq T zero _ b0 k b1 (get A (k * n + k)) I1) as (b2 & Hs & I2); [lia|reflexivity|].
       rewrite Hs. cbn [bind]. eexists. split; [reflexivity|]. split; [reflexivity|exact I2].
@@ -234,23 +249,23 @@ Section TP.
   Qed.
 
   Theorem diag1_ok n A b0 :
-    length A = n * n -> length (cells b0) = n ->
+    U32 n -> length A = n * n -> length (cells b0) = n ->
     exists b, diag1 T n A b0 = Ok b /\ nwr b = nwr b0 + n /\ length (cells b) = n /\
       forall i, i < n -> get (cells b) i = get A (i * n + i).
   Proof.
-    intros HA Hlen. unfold diag1.
-    destruct (diag_get_loop n n A n b0 HA (le_n n) (le_n n) Hlen) as (b & Hw & H).
+    intros Un HA Hlen. unfold diag1.
+    destruct (diag_get_loop n n A n b0 Un HA (le_n n) (le_n n) Hlen) as (b & Hw & H).
     rewrite Hw. cbn [bind]. exists b. split; [reflexivity|exact H].
   Qed.
 
   Theorem diag2_ok m n A b0 :
-    length A = m * n -> length (cells b0) = Nat.min m n ->
+    U32 n -> length A = m * n -> length (cells b0) = Nat.min m n ->
     exists b, diag2 T m n A b0 = Ok b /\ nwr b = nwr b0 + Nat.min m n /\
       length (cells b) = Nat.min m n /\
       forall i, i < Nat.min m n -> get (cells b) i = get A (i * n + i).
   Proof.
-    intros HA Hlen. unfold diag2. rewrite amin_min.
-    destruct (diag_get_loop n m A (Nat.min m n) b0 HA (Nat.le_min_l m n) (Nat.le_min_r m n) Hlen)
+    intros Un HA Hlen. unfold diag2. rewrite amin_min.
+    destruct (diag_get_loop n m A (Nat.min m n) b0 Un HA (Nat.le_min_l m n) (Nat.le_min_r m n) Hlen)
       as (b & Hw & H).
     rewrite Hw. cbn [bind]. exists b. split; [reflexivity|exact H].
   Qed.
@@ -312,11 +327,12 @@ Section TP.
   Qed.
 
   Theorem diag_ok n a b0 :
-    length a = n -> length (cells b0) = n * n ->
+    U32 n -> length a = n -> length (cells b0) = n * n ->
     exists b, diag T zero n a b0 = Ok b /\ nwr b = nwr b0 + n * n /\ length (cells b) = n * n /\
       forall r c, r < n -> c < n -> get (cells b) (r * n + c) = if r =? c then get a r else zero.
   Proof.
-    intros Ha Hlen. unfold diag.
+    intros Un Ha Hlen. unfold diag.
+    destruct (sz_succ_id n Un) as [EN HN].
     (* first loop: the diagonal *)
     destruct (while_ghost
                 (fun k (s : nat * buf T) =>
@@ -325,7 +341,7 @@ Section TP.
                 n (fun '(r, _) => r <? n) (diag_set T n a))
       with (fuel := n) (k := 0) (s := (0, b0)) as (s1 & Hw1 & Hi1).
     { intros k [r b1] (-> & Hn & HM1) Hk. split; [apply Nat.ltb_lt; lia|].
-      unfold diag_set.
+      unfold diag_set. rewrite EN, (sz_mul_id (n + 1) k HN) by u32.
       rewrite (load_ok T zero) by lia. cbn [bind].
       destruct (Mat_store T zero n n _ b1 k k ((n + 1) * k) (get a k) HM1)
         as (b2 & Hs & Hn2 & HM2); [lia|lia|lia|].
